@@ -70,23 +70,40 @@ def e2e_case(args):
 
 
 def _e2e_case(args):
-    stype, ic, tm, eqs, nsamp = args
+    stype, ic, tm, eqs, nsamp = args[:5]
+    freqs = list(args[5]) if len(args) > 5 else [1]
     t0 = time.time()
     mod = alg.load_module(report.REPO, FILE)
     Q = sp.Symbol("Q", positive=True)
     s = sp.symbols("s0:2", real=True)
-    srv, fv = 4, 1            # concrete: they fix the number of padded samples (ceil(sr/f) = 4)
+    srv = 4                   # concrete sr and f: they fix the number of padded samples (ceil(sr/min f) = 4)
     reg = alg.Regime("e2e", {Q: 7, s[0]: 3, s[1]: -2})
     sig = alg.sym_array(list(s))
     with alg.Shimmed(mod, reg, extra={"signal": types.SimpleNamespace(lfilter=sym_lfilter)}):
-        sh, resp = mod.srs(sig, srv, [fv], alg.S(Q), ic=ic, stype=stype, getresp=True, time=tm, parallel="no",
+        sh, resp = mod.srs(sig, srv, freqs, alg.S(Q), ic=ic, stype=stype, getresp=True, time=tm, parallel="no",
                            rolloff="none", peak=(lambda r: r[0]), eqsine=eqs)
     hist = resp["hist"]
     tvec = [alg.expr_of(x) for x in np.asarray(resp["t"]).reshape(-1)]
     # specification
-    N, nz = 2, 4
-    wn = 2 * sp.pi * fv
+    N = 2
+    nz = int(sp.ceiling(sp.Rational(srv) / min(f_ for f_ in freqs if f_ > 0)))
     T = sp.Rational(1, srv)
+    total = N + nz if tm != "primary" else N
+    ns = list(range(total)) if tm != "residual" else list(range(N, total))
+    out = []
+    if hist.shape != (len(ns), 1, len(freqs)) or len(tvec) != len(ns):
+        return (args, [("shape", "failed", "hist shape %s, t length %d, expected %d samples x 1 x %d" % (hist.shape, len(tvec), len(ns), len(freqs)))], time.time() - t0)
+    for jf, fv in enumerate(freqs):
+        out += _e2e_freq(stype, ic, tm, eqs, nsamp, fv, jf, hist, tvec, s, Q, N, nz, T)
+    res = []
+    for lab, e, note in out:
+        st, det = alg.prove_zero(e, numeric_only=True)
+        res.append((lab, st, det))
+    return (args, res, time.time() - t0)
+
+
+def _e2e_freq(stype, ic, tm, eqs, nsamp, fv, jf, hist, tvec, s, Q, N, nz, T):
+    wn = 2 * sp.pi * fv
     z, _ = SC.ramp_response(False)
     Y = SC.output(stype, z, False)
     sub = {SC.w: wn, SC.T: T}
@@ -111,21 +128,15 @@ def _e2e_case(args):
     addback = steady * s[0] if ic == "steady" else 0
     ns = list(range(total)) if tm != "residual" else list(range(N, total))
     out = []
-    if hist.shape != (len(ns), 1, 1) or len(tvec) != len(ns):
-        return (args, [("shape", "failed", "hist shape %s, t length %d, expected %d samples" % (hist.shape, len(tvec), len(ns)))], time.time() - t0)
     pick = range(len(ns)) if nsamp is None else sorted(set([0, len(ns) // 2, len(ns) - 1]))
     for i in pick:
         n = ns[i]
         spec = sum(x[k] * h(n - k) for k in range(n + 1)) + addback
         if eqs:
             spec = spec / Q
-        out.append(("hist[%d]" % i, alg.expr_of(hist[i, 0, 0]) - spec, ""))
+        out.append(("hist[%d,0,%d]" % (i, jf), alg.expr_of(hist[i, 0, jf]) - spec, ""))
         out.append(("t[%d]" % i, tvec[i] - n * T, ""))
-    res = []
-    for lab, e, note in out:
-        st, det = alg.prove_zero(e, numeric_only=True)
-        res.append((lab, st, det))
-    return (args, res, time.time() - t0)
+    return out
 
 
 def selectors(mod):
@@ -175,6 +186,9 @@ def run(tier, seed):
              for tm in ("primary", "total", "residual") for eq in ((False, True) if tier == "thorough" else (False,))]
     if tier != "thorough":
         cases += [("absacce", "steady", "total", True, 3)]
+    # several oscillators, frequency list not ascending, with a zero frequency
+    cases += [(st, ic, tm, False, 3, (2, 1)) for st in ("absacce", "reldisp") for ic in ("zero", "steady") for tm in ("total", "residual")]
+    cases += [("relvelo", "zero", "total", False, 3, (0, 2, 1))]
     outs = report.pool().map(e2e_case, cases, chunksize=1)
     nev, fails, und = 0, [], []
     for args, res, secs in outs:
